@@ -202,6 +202,9 @@ class C11(Harness):
                         except NotImplementedError:
                             inp_refused = True
                     pred = f.predict(fh)
+                    if kind == "insample" and not inp.get("failed_before"):
+                        again = f.predict()  # the horizon stored by the request above, used again
+                        return {"rejected": False, "index": L(pred.index), "values": L(pred.values), "cutoff": S(f.cutoff), "again": [L(again.index), L(again.values)]}
             except ValueError:
                 return {"rejected": True}
             return {"rejected": False, "index": L(pred.index), "values": L(pred.values), "cutoff": S(f.cutoff)}
@@ -347,6 +350,15 @@ class C11(Harness):
                     P.eq("drift", v, y[n - 1] + hh * (y[n - 1] - y[n - weff]) / (weff - 1))
         elif kind == "insample":
             wl = inp["wl"]
+            if "again" in out:
+                ai, av = out["again"]
+                P.check("in-sample", len(ai) == len(out["index"]), {"what": "predict() re-using the stored horizon", "n_labels": len(ai)})
+                for a, b_, va, vb in zip(ai, out["index"], av, vals):
+                    P.eq("in-sample", a, b_, {"what": "predict() re-using the stored horizon"})
+                    if is_nan(vb) or is_nan(va):
+                        P.check("in-sample", is_nan(va) and is_nan(vb), {"what": "predict() re-using the stored horizon"})
+                    else:
+                        P.eq("in-sample", va, vb, {"what": "predict() re-using the stored horizon"})
             for v, h in zip(vals, fh):
                 p = n - 1 + h  # position of the target
                 if h > 0:
